@@ -155,8 +155,10 @@ def Pos.beforeTradingStock (cfg : InsCfg) (p : Pos) (c : CorpDay) (reinvest : Bo
             let amount := R.decQuot10 (R.ofInt a0) (R.ofInt cfg.lot) * cfg.lot
             if amount > 0 then
               let t : TradeIn := { price := pc.last, qty := amount, effect := .open_, fee := fee amount pc.last }
-              ((pc.applyTradeStock cfg t).1, value - R.ofInt amount * pc.last, some t)
-            else (pc, value - R.ofInt amount * pc.last, none)
+              -- (repaired, F11) net effect on the account's cash: the dividend arrives (return value) and the account pays for the reinvested
+              -- shares AND their fee when it books the published trade (`apply_trade` inside the call; it used to be overwritten)
+              ((pc.applyTradeStock cfg t).1, value - R.ofInt amount * pc.last - t.fee, some t)
+            else (pc, value, none)
           else (pc, value, none)
       | none => (p1, 0, none)
     -- _handle_split
